@@ -220,6 +220,26 @@ w("vacuum-timer-fires-once", ["C17"], "C17.periodic/(*column.Collection).vacuum/
   ("column_expire.go", "\tticker := time.NewTicker(interval)\n", "\tticker := time.NewTimer(interval)\n"))
 w("commit-writeto-drops-length", ["C05", "C06"], "C05.grammar/Commit/groups", "the byte-section length is not written",
   ("commit/commit.go", "\t\t// Write buffer length\n\t\tif err := w.WriteUvarint(uint64(offset)); err != nil {\n\t\t\treturn err\n\t\t}\n", "\t\t// Write buffer length\n"))
+w("fx12-readchunk-unguarded-index", ["C08", "C13"], "C08.read/(*column.Collection).readChunk/commits-in-range", "commit-id table indexed without a length test (inverse of fix 53d21bb)",
+  ("snapshot.go", "\tvar last uint64\n\tif int(chunk) < len(c.commits) {\n\t\tlast = c.commits[chunk]\n\t}\n\treturn fn(last, chunk, chunk.OfBitmap(c.fill))\n", "\treturn fn(c.commits[chunk], chunk, chunk.OfBitmap(c.fill))\n"), suite="survives")
+# ---- rules of seed rounds 6 and 7 ----------------------------------------------------------------
+w("max-overwritten-on-miss", ["C04"], "C04.fold/(column.rdNumber[T]).Max", "a block without selected values overwrites the running maximum",
+  ("column_numeric.go", "bitmap.Max(data, present(index, fill)); hit && (v > max || !ok) {\n\t\t\t\tmax = v\n\t\t\t\tok = true\n", "bitmap.Max(data, present(index, fill)); v > max || !ok {\n\t\t\t\tmax = v\n\t\t\t\tok = hit\n"))
+w("pair-loop-skips-empty-selection", ["C04"], "C04.blocks/(*column.Txn).rangeReadPair/every-block", "Union cannot add rows to a block whose selection is empty",
+  ("txn_lock.go", "\t\tlock.RLock(uint(chunk))\n\t\tf(chunk.OfBitmap(txn.index), column.Index(chunk))\n", "\t\tif chunk.OfBitmap(txn.index).Count() == 0 {\n\t\t\tcontinue\n\t\t}\n\t\tlock.RLock(uint(chunk))\n\t\tf(chunk.OfBitmap(txn.index), column.Index(chunk))\n"))
+w("commit-writeto-bytes-of-block-zero", ["C06", "C08"], "C06.own-chunk/(*commit.Commit).WriteTo", "the bytes written are those of block 0, whatever the commit's block",
+  ("commit/commit.go", "\t\t// Write all chunk bytes together\n\t\treader.Range(buffer, c.Chunk, func(r *Reader) {", "\t\t// Write all chunk bytes together\n\t\treader.Range(buffer, 0, func(r *Reader) {"))
+w("commit-writeto-clears-updates", ["C05", "C06", "C15"], "C05.readonly/(*commit.Commit).WriteTo", "serialising empties the update list the next block's commit shares",
+  ("commit/commit.go", "\t}); err != nil {\n\t\treturn w.Offset(), err\n\t}\n\n\treturn w.Offset(), nil\n}", "\t}); err != nil {\n\t\treturn w.Offset(), err\n\t}\n\n\tc.Updates = c.Updates[:0]\n\treturn w.Offset(), nil\n}"))
+w("commit-writeto-counts-other-slice", ["C05", "C06", "C08"], "C05.count/(*commit.Commit).WriteTo", "the announced count is taken from another slice than the one indexed",
+  ("commit/commit.go", "\tif err := w.WriteRange(len(c.Updates), func(i int, w *iostream.Writer) error {", "\tnonEmpty := c.Updates[:0:0]\n\tfor _, u := range c.Updates {\n\t\tif !u.IsEmpty() {\n\t\t\tnonEmpty = append(nonEmpty, u)\n\t\t}\n\t}\n\tif err := w.WriteRange(len(nonEmpty), func(i int, w *iostream.Writer) error {"))
+w("drop-unregisters-before-detach", ["C03", "C19"], "C03.register/(*column.Collection).DropTrigger/order", "DeleteIndex resolves the trigger by a name that is already gone",
+  ("collection.go", "\tcolumnName := column.Column.(computed).Column()\n\tc.cols.DeleteIndex(columnName, triggerName)\n\tc.cols.DeleteColumn(triggerName)\n", "\tcolumnName := column.Column.(computed).Column()\n\tc.cols.DeleteColumn(triggerName)\n\tc.cols.DeleteIndex(columnName, triggerName)\n"))
+w("grow-bypasses-column-lock", ["C18"], "L7.read/column.numericColumn.chunks/holding column.lock", "columns grown without column.lock while Apply reads the headers under column.lock:R",
+  ("txn.go", "\t\tcolumn.Grow(max)\n", "\t\tcolumn.Column.Grow(max)\n"))
+w("recorder-looked-up-before-latch", ["C07", "C08"], "L5.emit/recording?/(*column.Txn).commit", "the snapshot recorder is looked up outside the block latch",
+  ("txn.go", "\ttxn.rangeWrite(func(commitID uint64, chunk commit.Chunk, fill bitmap.Bitmap) {", "\trecorder, recording := txn.owner.isSnapshotting()\n\ttxn.rangeWrite(func(commitID uint64, chunk commit.Chunk, fill bitmap.Bitmap) {"),
+  ("txn.go", "\t\tif dst, ok := txn.owner.isSnapshotting(); ok {\n\t\t\tdst.Append(", "\t\tif recording {\n\t\t\trecorder.Append("))
 
 os.makedirs(os.path.dirname(os.path.abspath(__file__)), exist_ok=True)
 json.dump(W, open(os.path.join(os.path.dirname(os.path.abspath(__file__)), "witnesses.json"), "w"), indent=1)
